@@ -33,12 +33,25 @@ def extract(ctx, finfo, grid_param, mean_param, np_aliases=("np", "numpy")):
     facts.ret = ret
     # ---- the store D[idx] = <integral call> inside a loop
     stores = []
+    tuple_pos = {}
     for n in ast.walk(f.node):
         if isinstance(n, ast.Assign) and len(n.targets) == 1 and isinstance(n.targets[0], ast.Subscript) \
                 and isinstance(n.targets[0].value, ast.Name) and enclosing_func(n) is f.node:
             loops = [a for a in _ancestors(n, f.node) if isinstance(a, (ast.For, ast.While))]
             if loops:
                 stores.append((n, loops[0]))
+        elif isinstance(n, ast.Assign) and len(n.targets) == 1 and isinstance(n.targets[0], (ast.Tuple, ast.List)) and enclosing_func(n) is f.node:
+            # (D[i], err) = quad(...): element k of the call's result is stored
+            subs = [(k, e) for k, e in enumerate(n.targets[0].elts) if isinstance(e, ast.Subscript) and isinstance(e.value, ast.Name)]
+            loops = [a for a in _ancestors(n, f.node) if isinstance(a, (ast.For, ast.While))]
+            if len(subs) == 1 and loops and isinstance(n.value, ast.Call):
+                k, e = subs[0]
+                eq = ast.Assign(targets=[e], value=ast.Subscript(value=n.value, slice=ast.Constant(value=k), ctx=ast.Load()))
+                ast.copy_location(eq, n)
+                ast.copy_location(eq.value, n)
+                eq.parent = getattr(n, "parent", None)
+                eq._orig = n
+                stores.append((eq, loops[0]))
     if len(stores) != 1:
         return None, [("indet", f.node, "expected exactly one indexed store inside a loop, found %d" % len(stores))]
     store, loop = stores[0]
@@ -51,6 +64,7 @@ def extract(ctx, finfo, grid_param, mean_param, np_aliases=("np", "numpy")):
     ivar = idx.id
     facts.ivar = ivar
     elem_var = None  # a loop variable that holds grid[ivar]
+    elem_off = {}    # loop variables that hold grid[ivar + offset]
     # ---- values taken by the index variable
     start = step = count_expr = None
     if isinstance(loop, ast.For) and isinstance(loop.target, ast.Name) and loop.target.id == ivar \
@@ -96,6 +110,36 @@ def extract(ctx, finfo, grid_param, mean_param, np_aliases=("np", "numpy")):
         facts.count_desc = ast.unparse(loop.iter)
         if facts.stop_is_len and isinstance(loop.target.elts[1], ast.Name):
             elem_var = loop.target.elts[1].id
+        # for i, (lo, hi) in enumerate(zip(grid[a:b], grid[c:d]), start=s): lo = grid[i - s + a], hi = grid[i - s + c]
+        if isinstance(seq, ast.Call) and isinstance(seq.func, ast.Name) and seq.func.id == "zip" and not seq.keywords \
+                and isinstance(loop.target.elts[1], (ast.Tuple, ast.List)) and len(loop.target.elts[1].elts) == len(seq.args) and st_val is not None:
+            lens = []
+            good = True
+            for tv, sq in zip(loop.target.elts[1].elts, seq.args):
+                if not (isinstance(tv, ast.Name) and isinstance(sq, ast.Subscript) and isinstance(sq.value, ast.Name) and sq.value.id == grid_param
+                        and isinstance(sq.slice, ast.Slice) and sq.slice.step is None):
+                    good = False
+                    break
+
+                def lit(x, dflt):
+                    if x is None:
+                        return dflt
+                    if isinstance(x, ast.Constant) and isinstance(x.value, int):
+                        return x.value
+                    if isinstance(x, ast.UnaryOp) and isinstance(x.op, ast.USub) and isinstance(x.operand, ast.Constant):
+                        return -x.operand.value
+                    return None
+                lo_, up_ = lit(sq.slice.lower, 0), lit(sq.slice.upper, 0)
+                if lo_ is None or up_ is None or lo_ < 0 or up_ > 0:
+                    good = False
+                    break
+                elem_off[tv.id] = lo_ - st_val
+                lens.append(up_ - lo_)            # length = n + (up_ - lo_)
+            if good and lens:
+                # i runs from s to s + n + min(lens) - 1; it ends at n - 1 iff s + min(lens) == 0
+                facts.stop_is_len = st_val + min(lens) == 0
+            else:
+                elem_off.clear()
     else:
         # counter idiom: ivar = c before the loop; ivar += 1 once, last in the body;
         # the loop iterates over grid[c:]
@@ -158,12 +202,14 @@ def extract(ctx, finfo, grid_param, mean_param, np_aliases=("np", "numpy")):
             def visit_Name(self, node):
                 if elem_var is not None and node.id == elem_var:
                     return ast.Name(id="G[%s]" % Poly.atom(ivar).key(), ctx=ast.Load())
+                if node.id in elem_off:
+                    return ast.Name(id="G[%s]" % (Poly.atom(ivar) + Poly.const(elem_off[node.id])).key(), ctx=ast.Load())
                 return node
-        import copy
-        ex = flow.expand(a, keep={grid_param, ivar} | ({elem_var} if elem_var else set()))
+        ex = flow.expand(a, keep={grid_param, ivar} | ({elem_var} if elem_var else set()) | set(elem_off))
         return py_poly(_T().visit(_clone(ex)))
 
-    lim_args = [a for a in core.args if any(isinstance(x, ast.Name) and x.id in (grid_param, elem_var) for x in ast.walk(flow.expand(a, keep={grid_param, ivar} | ({elem_var} if elem_var else set()))))]
+    keepn = {grid_param, ivar} | ({elem_var} if elem_var else set()) | set(elem_off)
+    lim_args = [a for a in core.args if any(isinstance(x, ast.Name) and (x.id in (grid_param, elem_var) or x.id in elem_off) for x in ast.walk(flow.expand(a, keep=keepn)))]
     lims = []
     for a in lim_args:
         try:
